@@ -1,9 +1,58 @@
-(** Property C05 — statements only. Each theorem is closed by [exact] of a lemma
-    proved elsewhere and followed by [Print Assumptions]. *)
-From CR Require Import Base Atomic Machine LinksFacts HeapFacts TraceFacts Local.
+(** Property C05 — Weak handles observe destruction exactly. *)
+From Coq Require Import Permutation.
+From CR Require Import Base Atomic Machine LinksFacts HeapFacts TraceFacts TraceTotal Local StackBound
+  Termination Perm StdRc StdRefine Tokens InvDef InvLemmas ActBase ActHandles ActAdopt ActMove ActConsume
+  StepFrames StepPanic Purge GroupOps DropDec Group DropLast StepInv RunInv Consequences Common.
 Local Open Scope N_scope.
 
-Theorem C05_upgrade_iff_not_dead :
+(** in every configuration (also inside destructors during a group teardown):
+    upgrade succeeds iff the value has not been destroyed *)
+Theorem C05_upgrade_iff_alive :
+  forall s self pc k wr dst o, Inv s (ctx self pc k) ->
+  resolve_weak s self wr = Some (Some o) -> reg_free s dst = true ->
+  exists b, getb (heap_of s) o = Ok b /\
+    (value b <> None <-> live b = true) /\
+    (live b = false -> exec_act s self (AUpgrade wr dst) = AO s self RNone []) /\
+    (live b = true -> exists s', exec_act s self (AUpgrade wr dst) = AO s' self RSome [] /\
+        reg_get s' dst = RStrong o).
+Proof. exact upgrade_iff_alive. Qed.
+Print Assumptions C05_upgrade_iff_alive.
+
+Theorem C05_counts_zero_after_destruction :
+  forall s self pc k wr o, Inv s (ctx self pc k) ->
+  resolve_weak s self wr = Some (Some o) ->
+  exists b, getb (heap_of s) o = Ok b /\
+    (live b = false ->
+       exec_act s self (AWStrongCount wr) = AO s self (RNat 0) [] /\
+       exec_act s self (AWWeakCount wr) = AO s self (RNat 0) []).
+Proof. exact weak_counts_dead. Qed.
+Print Assumptions C05_counts_zero_after_destruction.
+
+(** a Weak handle keeps the bare allocation valid until it is dropped *)
+Theorem C05_weak_keeps_allocation :
+  forall s self pc k wr o, Inv s (ctx self pc k) ->
+  resolve_weak s self wr = Some (Some o) -> exists b, getb (heap_of s) o = Ok b.
+Proof. exact weak_target_allocated. Qed.
+Print Assumptions C05_weak_keeps_allocation.
+
+(** every member of a collected group is marked dead BEFORE any member's
+    destructor can run: after the drop step all keys are [gone] *)
+Theorem C05_members_dead_before_destructors :
+  forall s k o pri cyc pops visits,
+  Inv s k -> (forall x, reach (heap_of s) o x -> disc_at (heap_of s) x) ->
+  orphaned_cycle (heap_of s) o = Ok (Some cyc, pops, visits) ->
+  let cyc' := order_cycle pri cyc in
+  let keys := map fst cyc' in
+  exists h2 h3 inners,
+    bust_all (heap_of s) keys cyc' = Ok h2 /\ gather h2 keys [] = Ok (h3, inners) /\
+    group_heap (heap_of s) h3 keys /\
+    (forall y, In y keys <-> reach (heap_of s) o y) /\
+    Inv (add_ev (set_heap (add_ev s (EvTrace o pops visits)) h3) (EvGroup keys))
+        (FInners inners :: FFinishGroup keys :: k).
+Proof. exact group_inv. Qed.
+Print Assumptions C05_members_dead_before_destructors.
+
+Theorem C05_upgrade_local :
   forall s self wr dst o b,
   resolve_weak s self wr = Some (Some o) -> reg_free s dst = true ->
   getb (heap_of s) o = Ok b ->
@@ -13,23 +62,4 @@ Theorem C05_upgrade_iff_not_dead :
        AO (set_reg (set_heap s (setb (heap_of s) o (with_strong b (Cnt (n + 1))))) dst (RStrong o))
           self RSome []).
 Proof. exact upgrade_spec. Qed.
-Print Assumptions C05_upgrade_iff_not_dead.
-
-Theorem C05_counts_zero_after_destruction :
-  forall s self wr o b,
-  resolve_weak s self wr = Some (Some o) -> getb (heap_of s) o = Ok b ->
-  strong b = Uninit ->
-  exec_act s self (AWStrongCount wr) = AO s self (RNat 0) [] /\
-  exec_act s self (AWWeakCount wr) = AO s self (RNat 0) [].
-Proof. exact weak_counts_after_destruction. Qed.
-Print Assumptions C05_counts_zero_after_destruction.
-
-Theorem C05_last_weak_releases :
-  forall h o b h',
-  getb h o = Ok b -> weak_drop h (Some o) = Ok h' ->
-  0 < weak b /\
-  h' = setb h o (if (weak b - 1 =? 0) then with_freed (with_weak b (weak b - 1)) true
-                 else with_weak b (weak b - 1)).
-Proof. exact weak_drop_spec. Qed.
-Print Assumptions C05_last_weak_releases.
-
+Print Assumptions C05_upgrade_local.
